@@ -86,6 +86,8 @@ def recs(it, kinds=None):
 
 def tri(chk, rule, cons, res, run, rec, what):
     ok, why = res
+    if getattr(run, "owner", None) == "RevolveCheckpointSchedule":
+        chk.conv_votes.setdefault((rule, cons), []).append((ok, bool(getattr(rec, "early", False))))
     if getattr(rec, "early", False) and ok is not False:
         return ok
     cfg = run.cfg_text()
